@@ -210,19 +210,20 @@ func validInputSize(min, max int, tv reflect.Value, isHasEqual ...bool) (isLessT
 	case reflect.Uint, reflect.Uint8, reflect.Uint16, reflect.Uint32, reflect.Uint64:
 		val := tv.Uint()
 		valStr = ToStr(val)
+		// 负数边界不能直接转为 uint64: 无符号数一定大于负数
 		if hasEqual {
-			if val < uint64(min) {
+			if min >= 0 && val < uint64(min) {
 				isLessThan = true
 			}
-			if val > uint64(max) {
+			if max < 0 || val > uint64(max) {
 				isMoreThan = true
 			}
 			return
 		}
-		if val < uint64(min) {
+		if min >= 0 && val <= uint64(min) {
 			isLessThan = true
 		}
-		if val > uint64(max) {
+		if max < 0 || val >= uint64(max) {
 			isMoreThan = true
 		}
 	case reflect.Slice:
@@ -238,10 +239,10 @@ func validInputSize(min, max int, tv reflect.Value, isHasEqual ...bool) (isLessT
 			}
 			return
 		}
-		if l < min {
+		if l <= min {
 			isLessThan = true
 		}
-		if l > max {
+		if l >= max {
 			isMoreThan = true
 		}
 	}
